@@ -31,6 +31,8 @@ from sdc11073.xml_types.dataconverters import (
     NullConverter,
     StringConverter,
     TimestampConverter,
+    UnsignedIntConverter,
+    UnsignedLongConverter,
 )
 
 if TYPE_CHECKING:
@@ -461,6 +463,8 @@ class IntegerAttributeProperty(_AttributeBase):
     XML notation is an integer, python is an integer.
     """
 
+    _value_converter = IntegerConverter
+
     def __init__(
         self,
         attribute_name: str,
@@ -470,7 +474,7 @@ class IntegerAttributeProperty(_AttributeBase):
     ):
         super().__init__(
             attribute_name,
-            value_converter=IntegerConverter,
+            value_converter=self._value_converter,
             default_py_value=default_py_value,
             implied_py_value=implied_py_value,
             is_optional=is_optional,
@@ -480,16 +484,22 @@ class IntegerAttributeProperty(_AttributeBase):
 class UnsignedIntAttributeProperty(IntegerAttributeProperty):
     """Represents an UnsignedInt attribute.
 
-    Python has no unsigned int, therefore this is the same as IntegerAttributeProperty.
+    Python has no unsigned int, therefore this is the same as IntegerAttributeProperty,
+    except that negative XML values are rejected.
     """
+
+    _value_converter = UnsignedIntConverter
 
 
 class VersionCounterAttributeProperty(UnsignedIntAttributeProperty):
     """Represents a VersionCounter attribute.
 
     VersionCounter in BICEPS is unsigned long.
-    Python has no unsigned long, therefore this is the same as IntegerAttributeProperty.
+    Python has no unsigned long, therefore this is the same as IntegerAttributeProperty,
+    except that negative XML values are rejected.
     """
+
+    _value_converter = UnsignedLongConverter
 
 
 class ReferencedVersionAttributeProperty(VersionCounterAttributeProperty):
